@@ -689,6 +689,34 @@ def generate(problems):
     if cleanup == ".absent":
         problems.append("ExcFlow: parse_args no longer drops a pending print_config request around its try block")
 
+    # explicit checks introduced by repairs (a missing one is a reverted repair)
+    guards = []
+    fn = _func(actions, "_ActionSubCommands.get_subcommands")
+    for n in ast.walk(fn) if fn else []:
+        if isinstance(n, ast.If):
+            t = ast.unparse(n.test)
+            if "not in action._name_parser_map" in t and "subcommand is not None" in t and \
+                    any(isinstance(r, ast.Raise) and "NSKeyError" in ast.unparse(r) for r in ast.walk(ast.Module(body=n.body, type_ignores=[]))):
+                guards.append("unknown_subcommand_name@get_subcommands")
+                break
+    fn = _func(actions, "_ActionSubCommands.__call__")
+    if fn:
+        chk = [c.lineno for c in ast.walk(fn) if isinstance(c, ast.Call) and isinstance(c.func, ast.Name) and c.func.id == "_check_subcommand_settings"]
+        cl = [c.lineno for c in ast.walk(fn) if isinstance(c, ast.Call) and isinstance(c.func, ast.Attribute) and c.func.attr == "clone"]
+        if chk and (not cl or min(chk) < min(cl)):
+            guards.append("subcommand_settings@__call__")
+    fn = _func(actions, "_ActionSubCommands.handle_subcommands")
+    if fn and "_check_subcommand_settings" in _calls(fn):
+        guards.append("subcommand_settings@handle_subcommands")
+    fn = _func(actions, "_check_subcommand_settings")
+    for n in ast.walk(fn) if fn else []:
+        if isinstance(n, ast.Raise) and isinstance(n.exc, ast.Call) and ex.ref(ast.unparse(n.exc.func), "_actions.py", "_check_subcommand_settings") == ".cls .TypeError":
+            guards.append("subcommand_settings_raises_TypeError")
+            break
+    fn = _func(th, "adapt_classes_any")
+    if fn and any(isinstance(n, ast.If) and "isinstance(init_args, Namespace)" in ast.unparse(n.test) for n in ast.walk(fn)):
+        guards.append("init_args_namespace@adapt_classes_any")
+
     loader_exc = {}
     for mode in ("yaml", "json", "toml", "jsonnet"):
         if mode not in loaders:
@@ -755,6 +783,7 @@ def generate(problems):
     out.append("  helpExitOnError := %s" % ("true" if help_eoe else "false"))
     out.append("  subInherited := [%s]" % ", ".join('"%s"' % a for a in sub_inherited))
     out.append("  printConfigCleanup := %s" % cleanup)
+    out.append("  guards := [%s]" % ", ".join('"%s"' % g for g in guards))
     out.append("")
     out.append("end Jap.Gen.ExcFlow")
     write_if_changed("ExcFlow.lean", "\n".join(out) + "\n")
